@@ -53,6 +53,8 @@ const VALUES: &[(&str, bool)] = &[
     ("={o1.a}", true),
     ("={[x]}", true),
     ("={{ a: x }}", true),
+    // a computed key is part of the value
+    ("={{ [x]: 1 }}", true),
 ];
 
 fn alphabet() -> Vec<AAttr> {
@@ -95,6 +97,7 @@ fn alphabet() -> Vec<AAttr> {
     v.push(sp("v-text={x}", false, false, false, false, false));
     v.push(sp("on={{ click: h1 }}", false, false, false, true, false));
     v.push(sp("on={ev1}", false, false, false, true, false));
+    v.push(sp("nativeOn={ev1}", false, false, false, true, false));
     v
 }
 
@@ -136,7 +139,15 @@ fn attr_case(attrs: &[&AAttr], comp: bool, transform_on: bool, merge_props: bool
     let meta: Vec<Value> = attrs
         .iter()
         .map(|a| {
-            json!({"name": a.name, "dynamic": a.dynamic, "needs_full": a.needs_full || (a.is_on && transform_on),
+            // `on` / `nativeOn`: listeners with run-time keys under transformOn (full props),
+            // ordinary dynamic props named "on" / "nativeOn" otherwise
+            let on_name = if a.jsx.starts_with("nativeOn") { "nativeOn" } else { "on" };
+            let (name, dynamic) = if a.is_on && !transform_on {
+                (Some(on_name), true)
+            } else {
+                (a.name, a.dynamic)
+            };
+            json!({"name": name, "dynamic": dynamic, "needs_full": a.needs_full || (a.is_on && transform_on),
                 "is_ref": a.is_ref, "dir": a.runtime_directive || (a.jsx.starts_with("v-model={m1}") && !comp)})
         })
         .collect();
@@ -382,7 +393,7 @@ impl Property for C13 {
         "C13"
     }
     fn rule(&self) -> String {
-        "(a) exhaustive: every ordered sequence of <=2 (quick) / multiset of <=3 (thorough) attributes over the abstract alphabet {class, style, key, ref, onClick, onFoo, onUpdate:modelValue, title, xlink:href} x {static string, value-less, 1, [1,\"a\"], {a:1}, undefined | x, f1(), o1.a, [x], {a:x}} plus {spread ident, spread literal, v-model, v-model static arg, v-model computed arg, custom directive, v-show, v-html, v-text, on literal, on ident} on an element host and a component host, optimize on, transformOn on/off, mergeProps on/off; (b) random nested component/element/fragment trees (depth<=4) with bound / unbound / spread identifier children. Oracle: predicate P0-P5 written from Vue's patch-flag contract over the recorded createVNode arguments 2/4/5 and the `_` key of slot objects: flag absent or integer>=1; dynamicProps names only present props; with a positive flag lacking FULL_PROPS every definitely-dynamic attribute is covered (class/style bits on elements, else PROPS + membership); spread / computed key / merged on-object => FULL_PROPS or no flag; ref or runtime directive => not HYDRATE_EVENTS alone; transform-built slot objects carry _ in {1,2}, 2 when a direct child is a bound identifier (propagated to enclosing slots through direct JSX nesting). non-trivial = >=1 definitely-dynamic attribute or full-props trigger, or a tree with >=1 bound identifier child; distinct by hash(source, options)".into()
+        "(a) exhaustive: every ordered sequence of <=2 (quick) / multiset of <=3 (thorough) attributes over the abstract alphabet {class, style, key, ref, onClick, onFoo, onUpdate:modelValue, title, xlink:href} x {static string, value-less, 1, [1,\"a\"], {a:1}, undefined | x, f1(), o1.a, [x], {a:x}, {[x]:1}} plus {spread ident, spread literal, v-model, v-model static arg, v-model computed arg, custom directive, v-show, v-html, v-text, on literal, on ident, nativeOn ident} on an element host and a component host, optimize on, transformOn on/off, mergeProps on/off; (b) random nested component/element/fragment trees (depth<=4) with bound / unbound / spread identifier children. Oracle: predicate P0-P5 written from Vue's patch-flag contract over the recorded createVNode arguments 2/4/5 and the `_` key of slot objects: flag absent or integer>=1; dynamicProps names only present props; with a positive flag lacking FULL_PROPS every definitely-dynamic attribute is covered (class/style bits on elements, else PROPS + membership); spread / computed key / merged on-object => FULL_PROPS or no flag; ref or runtime directive => not HYDRATE_EVENTS alone; transform-built slot objects carry _ in {1,2}, 2 when a direct child is a bound identifier (propagated to enclosing slots through direct JSX nesting). non-trivial = >=1 definitely-dynamic attribute or full-props trigger, or a tree with >=1 bound identifier child; distinct by hash(source, options)".into()
     }
     fn assumptions(&self) -> Vec<String> {
         vec![
